@@ -1251,7 +1251,11 @@ func (w *L1World) opRoleUpdate() {
 			roles.Challenger = nc
 		}
 	case 2:
-		res = l1.Deliver(ophosttypes.NewMsgUpdateBatchInfo(signer, b.id, ophosttypes.BatchInfo{Submitter: w.anyUser().String(), ChainType: ophosttypes.BatchInfo_CHAIN_TYPE_CELESTIA}))
+		bi := ophosttypes.BatchInfo{Submitter: w.anyUser().String(), ChainType: ophosttypes.BatchInfo_CHAIN_TYPE_CELESTIA}
+		if cur, err := l1.K.GetBridgeConfig(l1.Ctx, b.id); err == nil && w.rng.Chance(40) {
+			bi = cur.BatchInfo // the current batch info submitted once more (it still opens a new entry of the history)
+		}
+		res = l1.Deliver(ophosttypes.NewMsgUpdateBatchInfo(signer, b.id, bi))
 		kind = "update_batch_info"
 	case 3:
 		res = l1.Deliver(ophosttypes.NewMsgUpdateMetadata(signer, b.id, w.rng.Bytes(w.rng.Intn(40))))
